@@ -906,7 +906,7 @@ def judge(chk, c, im, v, structural=True):
 
 
 def build_reported(chk):
-    common.build_reported(chk, "C02", "proofs/MajorEnumProofs.v", "props/C02_reported.v")
+    common.build_reported(chk, "C02", ["proofs/MajorEnumProofs.v", "proofs/PlantedProofs.v"], "props/C02_reported.v")
 
 
 def run(chk):
